@@ -62,6 +62,23 @@ func opFromJSON(j opJSON) (Op, error) {
 	return o, nil
 }
 
+// toSampleJSON: the case as shown in the evidence file — long arguments are cut (a replay file carries them whole)
+func (c Case) toSampleJSON() caseJSON {
+	j := c.toJSON()
+	cut := func(ops []opJSON) {
+		for i := range ops {
+			for k, a := range ops[i].Args {
+				if len(a) > 2000 {
+					ops[i].Args[k] = a[:2000] + fmt.Sprintf("…(%d hex digits in all)", len(a))
+				}
+			}
+		}
+	}
+	cut(j.Ops)
+	cut(j.Oracles)
+	return j
+}
+
 func (c Case) toJSON() caseJSON {
 	j := caseJSON{Kind: c.Kind, Note: c.Note}
 	for _, o := range c.Ops {
@@ -472,7 +489,7 @@ func runProperty(pr *Property, env *Env, tier string, seed int64, lean leanResul
 		k := outcomes[i].c.Kind
 		if !seenKind[k] && len(samples) < 8 {
 			seenKind[k] = true
-			samples = append(samples, outcomes[i].c.toJSON())
+			samples = append(samples, outcomes[i].c.toSampleJSON())
 		}
 	}
 	if len(samples) == 0 {
